@@ -355,7 +355,10 @@ class EventLog:
 
 
 def path_ops(p):
-    ops = p.path_t.__ops__
+    try:
+        ops = p.path_t.__ops__
+    except AttributeError:          # an entry that is not (yet) a complete Path
+        return [{'op': '?', 'arg': 'incomplete'}]
     out = []
     for i in range(1, len(ops), 2):
         op, arg = ops[i], ops[i + 1]
@@ -432,8 +435,13 @@ def install_logs(log):
 
 def register_logged(r, log=None):
     apply_registration(r)
-    if log is not None:
-        default_registry()._type_cache = TypeLogDict(log)
+    reg = default_registry()
+    if log is not None and not isinstance(reg._type_cache, TypeLogDict):
+        # register() installed a new memo dict: keep observing it (contents preserved, unlogged)
+        new = TypeLogDict(log)
+        for k, v in dict.items(reg._type_cache):
+            dict.__setitem__(new, k, v)
+        reg._type_cache = new
 
 
 def cache_state():
@@ -442,3 +450,39 @@ def cache_state():
     return dict(pct=[str(k) for k in dict.keys(Path._CACHE[True])],
                 pcf=[str(k) for k in dict.keys(Path._CACHE[False])],
                 tck=[[type_name(k[0]), k[1], handler_name(v)] for k, v in dict.items(reg._type_cache)])
+
+
+# ---- vacuity: which steps / branches of the mechanism did a set of recorded histories take -------
+STEP_KINDS = {'begin', 'toggle', 'reg', 'yield', 'pread', 'pcreate', 'pwrite', 'pfetch',
+              'tcheck', 'tcompute', 'twrite', 'tfetch'}
+
+
+def mechanism_coverage(hists):
+    """counts per step kind and per branch (cache hit, bypass when full, memo hit, no handler)
+    over fine-grained single-process histories"""
+    import collections
+    cnt = collections.Counter()
+    for h in hists:
+        ks = [ev.get('k', ev['e']) for ev in h if ev['e'] != 'end']
+        cnt.update(ks)
+        for a, b in zip(ks, ks[1:] + ['$']):
+            if a == 'pread' and b == 'pfetch':
+                cnt['branch:path-cache hit'] += 1
+            if a == 'pread' and b == 'pcreate':
+                cnt['branch:path-cache miss'] += 1
+            if a == 'pcreate' and b != 'pwrite':
+                cnt['branch:bypass when full'] += 1
+            if a == 'tcheck' and b == 'tfetch':
+                cnt['branch:memo hit'] += 1
+            if a == 'tcompute' and b != 'twrite':
+                cnt['branch:no handler, nothing memoized'] += 1
+    return dict(cnt)
+
+
+def require_coverage(cov):
+    import vlib
+    need = STEP_KINDS | {'branch:path-cache hit', 'branch:path-cache miss', 'branch:bypass when full',
+                         'branch:memo hit', 'branch:no handler, nothing memoized'}
+    missing = sorted(k for k in need if not cov.get(k))
+    if missing:
+        raise vlib.MachineryError('vacuity: mechanism steps / branches never taken: %s' % missing)
